@@ -91,6 +91,7 @@ func runNBRandom(w *rt.World, res *hx.Result, kind int) *hx.Violation {
 		cl.tcp = kind == 2 && clTCP[c] == 0
 		cl.linger = cl.tcp && clLinger[c] <= 1
 		cl.silent = cl.tcp && clLinger[c] == 1
+		cl.paced = cl.tcp && !cl.linger && clLinger[c] == 2 && clWindow[c] <= 1 // one request every 12 s on one connection
 		nreq := clN[c]
 		if flood && c == 0 {
 			nreq = floodN
@@ -119,7 +120,7 @@ func runNBRandom(w *rt.World, res *hx.Result, kind int) *hx.Violation {
 			cl.reqs = append(cl.reqs, &nbReq{id: idc, bytes: b, sig: stripID(b), tcp: cl.tcp, churn: churnQ})
 			cl.gaps = append(cl.gaps, g.gap)
 		}
-		if cl.tcp && clAbort[c] == 0 && !cl.linger {
+		if cl.tcp && clAbort[c] == 0 && !cl.linger && !cl.paced {
 			total := 0
 			for _, r := range cl.reqs {
 				total += 2 + len(r.bytes)
@@ -379,6 +380,11 @@ func runNBRandom(w *rt.World, res *hx.Result, kind int) *hx.Violation {
 					Msg: fmt.Sprintf("client %d received %d responses for request %#04x although the network duplicated nothing in this run", cl.idx, seen[id], id)}
 			}
 		}
+		// (a stalled-task fault can delay the client itself past the server's 30 s idle timeout: only judged without it)
+		if cl.paced && !stoppedEarly && w.Stats.TimeSkips == 0 && len(cl.got) < len(cl.reqs) {
+			return &hx.Violation{Class: "no_response", Key: sysName + "/long-lived-connection",
+				Msg: fmt.Sprintf("tcp client %d sent one request every 12 s on one connection and got only %d of %d answers: the server dropped a live connection", cl.idx, len(cl.got), len(cl.reqs))}
+		}
 		if !lossy && cl.abortAt < 0 && cl.sentAll {
 			for _, r := range cl.reqs {
 				exp := expUDP[r.sig]
@@ -513,6 +519,30 @@ func tcpClient(cl *nbClient, window int) {
 		c.Write(stream[:cl.abortAt])
 		if cl.abortAt%2 == 0 {
 			simnet.Abort(c)
+		}
+		return
+	}
+	if cl.paced {
+		// a long-lived connection: request, response, 12 s pause, ... (longer than any single I/O timeout in total)
+		for i, r := range cl.reqs {
+			if i > 0 {
+				rt.SleepUntil(rt.Now() + 12e9)
+			}
+			c.SetDeadline(time.Unix(rt.EpochUnix, 0).Add(time.Duration(rt.Now() + 40e9)))
+			var l [2]byte
+			binary.BigEndian.PutUint16(l[:], uint16(len(r.bytes)))
+			if _, err := c.Write(append(l[:], r.bytes...)); err != nil {
+				return
+			}
+			f := readFrame(c)
+			if f == nil {
+				return
+			}
+			cl.got = append(cl.got, f)
+		}
+		cl.sentAll = true
+		if cl.trigger != nil {
+			cl.trigger.Set()
 		}
 		return
 	}
